@@ -99,12 +99,13 @@ pub struct RawSchema {
     multipleOf: Option<f64>,
     #[serde(skip_serializing_if = "Option::is_none")]
     maximum: Option<f64>,
-    #[serde(skip_serializing_if = "is_false")]
-    exclusiveMaximum: bool,
+    /* a number since JSON Schema draft 6 / OpenAPI 3.1 ( boolean modifier of `maximum` only before them ) */
+    #[serde(skip_serializing_if = "Option::is_none")]
+    exclusiveMaximum: Option<f64>,
     #[serde(skip_serializing_if = "Option::is_none")]
     minimum: Option<f64>,
-    #[serde(skip_serializing_if = "is_false")]
-    exclusiveMinimum: bool,
+    #[serde(skip_serializing_if = "Option::is_none")]
+    exclusiveMinimum: Option<f64>,
 }
 impl<T: Type::SchemaType> From<Schema<T>> for RawSchema {
     fn from(schema: Schema<T>) -> Self {
@@ -236,9 +237,9 @@ const _: (/* constructors */) = {
         /* number,integer definition */
         multipleOf:       None,
         maximum:          None,
-        exclusiveMaximum: false,
+        exclusiveMaximum: None,
         minimum:          None,
-        exclusiveMinimum: false,
+        exclusiveMinimum: None,
     };
 
     impl Schema<Type::string> {
@@ -456,8 +457,7 @@ impl Schema<Type::number> {
         self
     }
     pub fn exclusiveMaximum(mut self, maximum: impl Into<f64>) -> Self {
-        self.raw.maximum = Some(maximum.into());
-        self.raw.exclusiveMaximum = true;
+        self.raw.exclusiveMaximum = Some(maximum.into());
         self
     }
     pub fn minimum(mut self, minimum: impl Into<f64>) -> Self {
@@ -465,8 +465,7 @@ impl Schema<Type::number> {
         self
     }
     pub fn exclusiveMinimum(mut self, minimum: impl Into<f64>) -> Self {
-        self.raw.minimum = Some(minimum.into());
-        self.raw.exclusiveMinimum = true;
+        self.raw.exclusiveMinimum = Some(minimum.into());
         self
     }
 }
@@ -484,8 +483,7 @@ impl Schema<Type::integer> {
         self
     }
     pub fn exclusiveMaximum(mut self, maximum: i32) -> Self {
-        self.raw.maximum = Some(maximum.into());
-        self.raw.exclusiveMaximum = true;
+        self.raw.exclusiveMaximum = Some(maximum.into());
         self
     }
     pub fn minimum(mut self, minimum: i32) -> Self {
@@ -493,8 +491,7 @@ impl Schema<Type::integer> {
         self
     }
     pub fn exclusiveMinimum(mut self, minimum: i32) -> Self {
-        self.raw.minimum = Some(minimum.into());
-        self.raw.exclusiveMinimum = true;
+        self.raw.exclusiveMinimum = Some(minimum.into());
         self
     }
 }
